@@ -21,8 +21,11 @@ def ov_tree(g, rng, depth, mode):
     if rng.random() < 0.5:
         return {"op": "inv", "s": g.tree(rng.choice([0, 1, 2]), ["or", "and", "sub", "inv"], mode)
                 if rng.random() < 0.5 else ov_tree(g, rng, depth - 1, mode)}
+    # subtractors may be arbitrary whatever the source is: nested / overlapping / duplicated holes,
+    # from one timeline or a union of them
+    smode = rng.choice([None, "nested", "nested", "dup", mode])
     return {"op": "sub", "l": ov_tree(g, rng, depth - 1, mode),
-            "r": g.tree(rng.choice([0, 1]), ["or", "and", "sub", "inv"], mode)}
+            "r": g.tree(rng.choice([0, 0, 1]), ["or", "or", "and", "sub", "inv"], smode)}
 
 
 def gen_overlapping(g, rng, tier, n):
@@ -144,6 +147,69 @@ class ApplyFamily(Family):
         return case["f"]["k"] in ("and", "or") or s is None or e is None or s == e
 
 
+class BufChainFamily(Family):
+    """buffer(buffer(...buffer(T, b1, a1)..., b2, a2)...) with amounts of either sign: a negative
+    amount at ANY level must be rejected with ValueError when that buffer is built; accepted chains
+    behave as one buffer by the summed amounts."""
+    name = "buffer_chains"
+    header = "From CG Require Import Harness.PureChk.\n"
+    case_type = "bcase"
+    corr = "corr_bufchain"
+    oracle = "oracle_bufchain"
+    n_quick, n_thorough = 600, 6000
+    rule = ("stored timelines (plain and rich events, nested, unbounded) under 1-3 nested buffer() calls with "
+            "amounts in {-50,-2,-1,0,1,2,5,100}; non-trivial = at least two levels or a negative amount")
+
+    def gen(self, rng, tier, n):
+        g = X.Gen(rng)
+        for k in range(n):
+            g.next_id = 1
+            lf = g._leaf(rng.choice([None, "disjoint", "nested"]))
+            depth = rng.choice([1, 2, 2, 2, 3])
+            amts = []
+            for _ in range(depth):
+                neg = rng.random() < 0.25
+                pick = lambda: rng.choice([-50, -2, -1]) if neg and rng.random() < 0.6 else rng.choice([0, 0, 1, 2, 5, 100])
+                amts.append([pick(), pick()])
+            a, b = g.window()
+            yield dict(evs=lf["evs"], amts=amts, a=a, b=b)
+
+    def run_impl(self, case):
+        from calgebra import buffer
+        tl = X.build({"op": "stored", "evs": case["evs"]})
+        sm = X.srcmap_of({"op": "stored", "evs": case["evs"]})
+        try:
+            for (bf, af) in case["amts"]:
+                tl = buffer(tl, before=bf, after=af)
+        except ValueError:
+            return {"rejected": True}
+        return {"rejected": False, "out": [X.obs_event(r, sm) for r in tl[case["a"]:case["b"]]]}
+
+    def coq_case(self, case, obs):
+        from .common import clist, coz, cz
+        amts = clist([f"({cz(bf)}, {cz(af)})" for bf, af in case["amts"]])
+        o = "None" if obs["rejected"] else f"(Some {X.coq_out(obs['out'])})"
+        return f"(mkBC {clist([civl(e) for e in case['evs']])} {amts} {coz(case['a'])} {coz(case['b'])} {o})"
+
+    def describe(self, case):
+        return f"T{case['evs']} buffers(innermost first)={case['amts']} window=({case['a']},{case['b']})"
+
+    def shrink_candidates(self, case):
+        for i in range(len(case["evs"])):
+            yield dict(case, evs=case["evs"][:i] + case["evs"][i + 1:])
+        for i in range(len(case["amts"])):
+            if len(case["amts"]) > 1:
+                yield dict(case, amts=case["amts"][:i] + case["amts"][i + 1:])
+
+    def nontrivial(self, case, obs):
+        return len(case["amts"]) >= 2 or any(x < 0 for p in case["amts"] for x in p)
+
+    def distribution(self, case, dist):
+        dist[f"levels_{len(case['amts'])}"] += 1
+        if any(x < 0 for p in case["amts"] for x in p):
+            dist["has_negative_amount"] += 1
+
+
 def filt_scaled(g, rng, depth, scale):
     if depth > 0 and rng.random() < 0.35:
         return {"k": rng.choice(["and", "or"]), "fs": [filt_scaled(g, rng, depth - 1, scale) for _ in range(rng.choice([2, 3]))]}
@@ -153,13 +219,20 @@ def filt_scaled(g, rng, depth, scale):
     return g.filt(0)
 
 
+def _kind_family():
+    # operator typing (filter | timeline is rejected) over operand shapes: shared with C15
+    from .props_pure import KindFamily
+    return KindFamily("C18")
+
+
 CHECKS = {
     "C16": Check("C16", [ExprFamily("C16", "o", "oracle_C16", {"D1": "o_noD1", "D2": "o_noD2", "D3": "o_noD3"}, gen_overlapping, 3000, 40000)], ASSUME),
     "C17": Check("C17", [
         ExprFamily("C17", "s", "oracle_events_strong", {"D1": "c_noD1", "D2": "c_noD2", "D3": "c_noD3"}, gen_transforms, 2000, 30000, name="buffer-slices"),
-        ExprFamily("C17", "f", "oracle_mw", {}, gen_mw, 2000, 30000, name="merge_within-fetches")], ASSUME),
+        ExprFamily("C17", "f", "oracle_mw", {}, gen_mw, 2000, 30000, name="merge_within-fetches"),
+        BufChainFamily("C17")], ASSUME),
     "C18": Check("C18", [
         ExprFamily("C18", "s", "oracle_events_strong", {"D1": "c_noD1", "D2": "c_noD2"}, gen_filters, 2500, 40000, name="filtered_slices"),
         ExprFamily("C18", "s", "oracle_events_strong", {"D1": "c_noD1", "D2": "c_noD2"}, gen_filters_derived, 800, 10000, name="filtered_derived"),
-        ApplyFamily("C18")], ASSUME),
+        ApplyFamily("C18"), _kind_family()], ASSUME),
 }
